@@ -37,6 +37,7 @@ ND_FIELDS = dict(shape=I, dtype=I, base=I, layout=I, val=R, writeable=B)
 
 # uninterpreted helpers shared by contracts
 NDIM = z3.Function("NDIM", I, I)  # number of dimensions of a shape id
+CANCAST = z3.Function("CANCAST", I, I, z3.BoolSort())
 STRIDES_EQ = z3.Function("STRIDES_EQ", I, I, I, I, z3.BoolSort())
 BSHAPE = z3.Function("BSHAPE", I, I, I)  # broadcast of two shape ids
 RFUN = z3.Function("RFUN", R, I, I, R)  # value of reduce_broadcast(grad(val, shape), var_shape)
@@ -297,6 +298,12 @@ def graph_np(heap: Heap):
         @staticmethod
         def copy(x, order="K", **k):
             return NdModel(h).copy(None, x, order)
+
+        @staticmethod
+        def can_cast(from_, to, casting="safe"):
+            # NumPy's casting table is not modelled: an uninterpreted relation on dtype ids, reflexive (a dtype casts to itself)
+            a, b_ = to_z3(from_), to_z3(to)
+            return z3.Or(a == b_, CANCAST(a, b_))
 
         @staticmethod
         def empty_like(x, dtype=None, order="K", **k):
